@@ -1,10 +1,10 @@
 #!/usr/bin/env bash
-# tools/eval_seeded.sh <property-id> <k> <dir-with-mutant<k>.patch,demo<k>.rs,meta<k>.json> [all]
+# tools/eval_seeded.sh <property-id> <k> <dir-with-mutant<k>.patch,demo<k>.rs,meta<k>.json> [all|target] [out-index]
 # Confirms a seeded breakage independently (suite passes with it, demonstration fails with it and
 # passes without it), runs the checks against it, and files it under /verif/seeded/<id>-<k>/.
 set -u
-id="$1"; k="$2"; src="$3"; mode="${4:-target}"
-out="/verif/seeded/$id-$k"; mkdir -p "$out"
+id="$1"; k="$2"; src="$3"; mode="${4:-target}"; outk="${5:-$k}"
+out="/verif/seeded/$id-$outk"; mkdir -p "$out"
 cp "$src/mutant$k.patch" "$out/patch.diff"; cp "$src/demo$k.rs" "$out/demo.rs" 2>/dev/null; cp "$src/meta$k.json" "$out/agent_meta.json" 2>/dev/null
 demoflags=""; [ -f "$src/demoflags$k" ] && demoflags="$(cat "$src/demoflags$k")" && echo "$demoflags" > "$out/demo_cargo_flags.txt"
 wt="$(mktemp -d /tmp/sci-eval-XXXXXX)"; rmdir "$wt"
@@ -40,7 +40,7 @@ if [ $applies = yes ]; then
     rm -f "$out/evidence-$c.json"
   done
 fi
-python3 - "$out" "$id" "$k" "$applies" "$suite" "$demo_with" "$demo_without" "$results" <<'PY'
+python3 - "$out" "$id" "$outk" "$applies" "$suite" "$demo_with" "$demo_without" "$results" <<'PY'
 import json,sys,os
 out,pid,k,applies,suite,dw,dwo,results=sys.argv[1:9]
 agent={}
